@@ -10,12 +10,15 @@ FACT_MODULES = ['Precis.Facts.Prof']
 # variants of one name: case, width, spacing, canonically / compatibly equivalent spellings
 FAMILIES = {
     'um': [[0x41, 0x6E, 0x67, 0xC5], [0x61, 0x6E, 0x67, 0xE5], [0xFF21, 0x6E, 0x67, 0x212B], [0x61, 0x6E, 0x67, 0x61, 0x30A], [0x41, 0x4E, 0x47, 0x41, 0x30A],
-           [0x5D0, 0x5D1], [0x5D0, 0x5B0, 0x5D1], [0x1F88], [0x1F80], [0x3A3], [0x3C3], [0x3C2], [0x13A0], [0xAB70], [0x130], [0x69, 0x307], [0x61, 0x20], []],
+           [0x5D0, 0x5D1], [0x5D0, 0x5B0, 0x5D1], [0x1F88], [0x1F80], [0x3A3], [0x3C3], [0x3C2], [0x13A0], [0xAB70], [0x130], [0x69, 0x307], [0x61, 0x20], [],
+           # word-final capital sigma after a cased letter: the unconditional mapping gives U+03C3, never the final form U+03C2
+           [0x391, 0x3A3], [0x3B1, 0x3C3], [0x3B1, 0x3C2], [0x391, 0x3C3], [0x41, 0x3A3], [0x61, 0x3C3], [0xFF21, 0x3A3]],
     'op': [[0x50, 0x61, 0x20, 0x73], [0x50, 0x61, 0xA0, 0x73], [0x50, 0x61, 0x3000, 0x73], [0x70, 0x61, 0x20, 0x73], [0x50, 0x41, 0x30A, 0x20, 0x73], [0x50, 0xC5, 0x20, 0x73],
            [0x50, 0x212B, 0x2003, 0x73], [0xFF30, 0x61, 0x20, 0x73], [0x50, 0x61, 0x20, 0x20, 0x73], [0xAD], []],
     'nick': [[0x46, 0x6F, 0x6F, 0x20, 0x42, 0x61, 0x72], [0x66, 0x6F, 0x6F, 0x20, 0x62, 0x61, 0x72], [0x20, 0x46, 0x6F, 0x6F, 0x20, 0x20, 0x42, 0x61, 0x72, 0x20], [0x46, 0x6F, 0x6F, 0xA0, 0x42, 0x61, 0x72],
              [0xFF26, 0x6F, 0x6F, 0x3000, 0x42, 0x61, 0x72], [0x46, 0x6F, 0x6F, 0x42, 0x61, 0x72], [0x1F88], [0x1F80], [0x1F00, 0x345], [0x1C5], [0x1C6], [0x1C4], [0x64, 0x17E],
-             [0xA8], [0x20, 0x308], [0x308], [0x2163], [0x49, 0x56], [0x69, 0x76], [0xFDFA], [0x20], [0xAD], []],
+             [0xA8], [0x20, 0x308], [0x308], [0x2163], [0x49, 0x56], [0x69, 0x76], [0xFDFA], [0x20], [0xAD], [],
+             [0x391, 0x3A3], [0x3B1, 0x3C3], [0x3B1, 0x3C2], [0x391, 0x3A3, 0x20], [0x20, 0x3B1, 0x3C3], [0x41, 0x3A3, 0x20, 0x42], [0x61, 0x3C3, 0x20, 0x62]],
 }
 FAMILIES['up'] = FAMILIES['um']
 
